@@ -32,6 +32,8 @@ var c09Producers = []struct{ Name, JS string }{
 	{"ineq-bound", `bs["?<m"] = 2;`},
 	{"computed", `bs.c = 4 / 2; bs.d = Math.floor(7 / 2); bs.xs2 = [0.5 + 0.5];`},
 	{"reset", `bs = {};`},
+	// a pattern variable bound by a script to an array of whole numbers: the bound value is the pattern next time
+	{"bind-codes", `bs["?codes"] = [100, 200]; bs["?one"] = 7;`},
 	// a script that looks into what the engine recorded about a failure
 	{"read-last", `var lb = bs.lastBindings; bs.sawLast = lb ? (lb.n === undefined ? "no n" : lb.n) : "none"; bs.sawKeys = lb ? Object.keys(lb).sort().join(",") : "none"; bs.sawNode = (typeof bs.lastNode) + ":" + bs.lastNode;`},
 	// failures whose text is long and not ASCII: the text lands in the bindings ("error", "actionError")
@@ -77,6 +79,9 @@ func c09Spec() *rstep.ASpec {
 		nodes["y-"+i.Name] = &rstep.ANode{Action: &actlang.Prog{Ops: []Op{{K: actlang.Emit, V: M{"inspector": i.Name, "matched": true}}}}, Branches: []rstep.ABranch{{Target: "idle"}}}
 		nodes["n-"+i.Name] = &rstep.ANode{Action: &actlang.Prog{Ops: []Op{{K: actlang.Emit, V: M{"inspector": i.Name, "matched": false}}}}, Branches: []rstep.ABranch{{Target: "idle"}}}
 	}
+	// branches whose patterns re-use variables a script may have bound
+	hub = append(hub, rstep.ABranch{Pattern: M{"codes": "?codes"}, Target: "y-codes"}, rstep.ABranch{Pattern: M{"one": []interface{}{"?one"}}, Target: "y-codes"})
+	nodes["y-codes"] = &rstep.ANode{Action: &actlang.Prog{Ops: []Op{{K: actlang.Emit, V: M{"granted": true}}}}, Branches: []rstep.ABranch{{Target: "idle"}}}
 	// a branch without a pattern: any other message is consumed by it (followed only with non-nil bindings)
 	hub = append(hub, rstep.ABranch{Target: "dflt"})
 	nodes["dflt"] = &rstep.ANode{Action: &actlang.Prog{Ops: []Op{{K: actlang.Emit, V: M{"unexpected": true}}}}, Branches: []rstep.ABranch{{Target: "idle"}}}
@@ -88,6 +93,12 @@ func c09Spec() *rstep.ASpec {
 func c09Msg(name string) interface{} {
 	if name == "other" {
 		return M{"zzz": 1.0}
+	}
+	if name == "codes-msg" {
+		return M{"codes": []interface{}{100.0, 200.0, 300.0}}
+	}
+	if name == "one-msg" {
+		return M{"one": []interface{}{7.0, 8.0}}
 	}
 	for _, p := range c09Producers {
 		if p.Name == name {
@@ -339,7 +350,7 @@ func C09(c *vh.Ctx) {
 	for _, i := range c09Inspectors {
 		names = append(names, i.Name)
 	}
-	names = append(names, "other")
+	names = append(names, "other", "codes-msg", "one-msg")
 	limits := []int{20, 2}
 	if c.Tier == "thorough" {
 		limits = []int{20, 1, 2, 3}
